@@ -1,6 +1,7 @@
 package main
 
 import (
+	"encoding/json"
 	"fmt"
 
 	"github.com/privacybydesign/gabi"
@@ -261,6 +262,51 @@ func suiteC11(s *Suite, rng *Rng, tier string) {
 					sa, _ := oa.Sign(kp.Sk)
 					sa.Accumulator = nil
 					mut("sacc-of-other-index", func(p *gabi.ProofD) { p.NonRevocationProof.SignedAccumulator = sa })
+					// the same over the wire, with extra members beside the signed data that spell out the accumulator the proof
+					// was made for: only the issuer-signed data may say what the accumulator is
+					{
+						p := cloneProofD(proof)
+						p.NonRevocationProof.SignedAccumulator = sa
+						js, _ := json.Marshal(p)
+						var tree interface{}
+						json.Unmarshal(js, &tree)
+						accJS, _ := json.Marshal(accNow)
+						var accTree interface{}
+						json.Unmarshal(accJS, &accTree)
+						var inject func(x interface{}) bool
+						inject = func(x interface{}) bool {
+							switch v := x.(type) {
+							case map[string]interface{}:
+								_, hasData := v["data"]
+								_, hasPk := v["pk"]
+								if hasData && hasPk {
+									for _, name := range []string{"acc", "accumulator", "Accumulator", "Acc"} {
+										v[name] = accTree
+									}
+									return true
+								}
+								for _, c := range v {
+									if inject(c) {
+										return true
+									}
+								}
+							case []interface{}:
+								for _, c := range v {
+									if inject(c) {
+										return true
+									}
+								}
+							}
+							return false
+						}
+						if inject(tree) {
+							js2, _ := json.Marshal(tree)
+							var p2 gabi.ProofD
+							if err := json.Unmarshal(js2, &p2); err == nil {
+								chk("sacc-of-other-index+accumulator-spelled-out-on-the-wire", &p2, true)
+							}
+						}
+					}
 				}
 				mut("hidden-revocation-response+1", func(p *gabi.ProofD) { p.AResponses[3].Add(p.AResponses[3], bi(1)) })
 				// transplant from another credential of the same issuer
